@@ -136,6 +136,34 @@ fn main() {
             props::c01::generate(&opts, &mut sink);
             sink.finish(props::c01::RULE, serde_json::json!({}));
         }
+        "C04" => {
+            let mut sink = cases::CaseSink::new("C04", "Model.Pipe Corr.C01 Corr.C04", &opts.out, 12);
+            props::jobs::generate_c04(&opts, &mut sink);
+            sink.finish(props::jobs::RULE_C04, serde_json::json!({}));
+        }
+        "C10" => {
+            let mut sink = cases::CaseSink::new("C10", "Model.Pipe Corr.C01 Corr.C10", &opts.out, 20);
+            props::jobs::generate_c10(&opts, &mut sink);
+            sink.finish(props::jobs::RULE_C10, serde_json::json!({}));
+        }
+        "C18" => {
+            let mut sink = cases::CaseSink::new("C18", "Model.Pipe Model.End Corr.LinkCorr Corr.C18", &opts.out, 60);
+            props::jobs::generate_c18(&opts, &mut sink);
+            sink.finish(props::jobs::RULE_C18, serde_json::json!({}));
+        }
+        "C20" => {
+            let mut sink = cases::CaseSink::new("C20", "Model.Pipe Corr.C20", &opts.out, 30);
+            props::jobs::generate_c20(&opts, &mut sink);
+            sink.finish(props::jobs::RULE_C20, serde_json::json!({}));
+        }
+        "DEBUG20" => {
+            use pipe::*;
+            for trig in 0..7 {
+                let p = Pipe::Op(Box::new(Pipe::Op(Box::new(Pipe::Op(Box::new(Pipe::Src(true, vec![(0, 9)])), Op1::ReduceMax)), Op1::GroupByMin)), Op1::PanicAt(trig));
+                let o = run_crash(&p, &Deploy::Local(1), Mode::Fixed(1024), std::time::Duration::from_secs(20));
+                println!("trigger {trig}: {:?}", o);
+            }
+        }
         p => {
             eprintln!("unknown property {p}");
             std::process::exit(2);
